@@ -180,6 +180,13 @@ class C04(Prop):
                 ops = []
                 exp = {"class": "ok", "value": enc_value(want)}
                 first_only = shape in (0, 1, 4)       # the script's own global is still there in the third run
+            if isinstance(v, list) and v is not UNSUPPORTED and rng.random() < 0.5:
+                # built-ins that return a rearranged copy leave the field as the host gave it, for every later mention in the run
+                fn = rng.choice(["sort(%s)", "reverse(%s)", "sort(%s, true)", "reverse(sort(%s))"]) % nm
+                src = "a = %s; b = %s; c = %s; return [a, len(b), c, %s];" % (nm, fn, nm, nm)
+                ops = []
+                exp = {"class": "ok", "value": enc_value([v, len(v), v, v])}
+                first_only = False
             allops = ops + ["prepare:" + rng.choice(["opt", "noopt"]), "exec:0", "exec:1", "exec:0"]
             k = len(ops) + 1
             expect = {}
@@ -192,7 +199,7 @@ class C04(Prop):
         # must be readable whatever else the struct holds; what reflection refuses to hand over is null
         for _ in range(400 if tier == "thorough" else 60):
             nm, cnt = rng.choice(["bob", "", "héllo"]), rng.choice([0, 7, 70000])
-            k = rng.choice("1234567")
+            k = rng.choice("123456789")
             obj = "K%s(%s,%d)" % (k, vlib.hx(nm), cnt)
             views = {"1": {"Name": nm, "Count": cnt, "priv": 3, "secret": "s3cr3t", "ratio": 2.5, "flag": True},
                      "2": {"Name": nm, "Count": cnt, "p": None, "when": None, "inn": None, "i": None},
@@ -204,7 +211,10 @@ class C04(Prop):
                      # one Go map reachable by two paths (no cycle) is a hash on both; maps that were never made are empty hashes
                      "6": {"Name": nm, "Count": cnt, "Billing": {"city": nm, "zip": cnt}, "Shipping": {"city": nm, "zip": cnt}, "NilA": {}, "NilB": {}},
                      "7": {"Name": nm, "Count": cnt, "x": {"city": nm, "zip": cnt}, "y": {"city": nm, "zip": cnt},
-                           "z": {"inner": {"city": nm, "zip": cnt}}}}[k]
+                           "z": {"inner": {"city": nm, "zip": cnt}}},
+                     # a record with exported methods (value and pointer receivers): methods are not fields
+                     "8": {"Name": nm, "Count": cnt, "Discard": None, "Touch": None, "Secret": None, "Size": None},
+                     "9": {"Name": nm, "Count": cnt, "Discard": None, "Touch": None, "Secret": None, "Size": None}}[k]
             names = list(views)
             probe = rng.sample(names, min(len(names), rng.randint(1, 3)))
             src = "return [%s];" % ", ".join(probe)
